@@ -215,6 +215,19 @@ def run(ctx):
         if m.get("what") in ("returned tree", "pipe grammar", "pipes"):
             what += " (got %s, required %s)" % (m.get("got"), m.get("exp")) if m.get("exp") else " (%s)" % m.get("got")
         ctx.violation(sig, m, what="%s; input %s (%d inputs)" % (what, m.get("q"), cnt))
+    # range filters (RangeFold.tla): the ends of `f:[a, b]` are values of the field - folded like any other value under the
+    # case-insensitive configuration, `*` the open end, brackets decide inclusion; every case into the real ParseSeqQL
+    rdrv = vlib.build_driver("rangefold")
+    rcf = os.path.join(ctx.scratch, "rangefold.jsonl")
+    rr = vlib.run_tlc(ctx, "RangeFold.tla", "RangeFold.cfg", case_file=rcf, workers=1, timeout=600)
+    if rr.violated:
+        raise vlib.Infra("TLC: %s violated in RangeFold.tla" % rr.violated)
+    vlib.require_tlc_ok(rr, "RangeFold")
+    rmism, rsumm, _ = vlib.run_cases(ctx, rdrv, [], rcf, label="rangefold", timeout=1200)
+    for m in rmism:
+        ctx.violation("range:%s" % str(m.get("what"))[:40], m, what="a SeqQL range filter does not denote what RangeFold.tla says: %s; query %s" % (str(m.get("what"))[:300], m.get("query")))
+    for k in ("cases", "evals", "nontrivial"):
+        tot[k] += rsumm[k]
     ctx.cov["traces_validated_against_impl"] = tot["cases"]
     ctx.cov["evaluations"] = tot["evals"]
     ctx.cov["distinct_nontrivial"] = tot["nontrivial"]
